@@ -20,6 +20,7 @@ database interface (`insert_session_transition`) through a recording stand-in.
 from __future__ import annotations
 
 import asyncio
+import json
 from typing import Any
 
 from gallia.services.uds.core import service
@@ -271,10 +272,28 @@ def run_scan(case: dict[str, Any]) -> dict[str, Any]:
         db.prior = {d: p for d, p in paths.items() if p}
     scanner.db_handler = db  # type: ignore[assignment]
     out: dict[str, Any] = {"end": "hang", "exc": ""}
+    real_db = case.get("db_path")
+    real_rows: list[dict[str, Any]] = []
 
     async def go() -> None:
         lis, tasks = _link(st, srv)
         st.last_time_active = asyncio.get_running_loop().time()
+        h = None
+        if real_db:
+            # the REAL database handler on a file that may already hold earlier scans of the same target
+            import sqlite3
+            from datetime import UTC, datetime
+            from pathlib import Path
+
+            import gallia.command  # noqa: F401
+            from gallia.command.config import GalliaBaseModel
+            from gallia.db.handler import DBHandler
+
+            h = DBHandler(Path(real_db))
+            await h.connect()
+            await h.insert_run_meta("c09-harness", GalliaBaseModel(), datetime.now(UTC).astimezone(), None)
+            await h.insert_scan_run(str(cfg.target))
+            scanner.db_handler = h
         with patched_connections(lis):
             try:
                 await scanner.run()
@@ -287,6 +306,20 @@ def run_scan(case: dict[str, Any]) -> dict[str, Any]:
                 out["exc"] = repr(e)[:200]
         for t in tasks:
             t.cancel()
+        if h is not None:
+            run_id = h.scan_run
+            try:
+                await h.disconnect()
+            finally:
+                if h.connection is not None:
+                    await h.connection.close()
+            con = sqlite3.connect(real_db)
+            try:
+                for dest, steps in con.execute("SELECT destination, steps FROM session_transition WHERE run = ?",
+                                               (run_id,)):
+                    real_rows.append({"s": int(dest), "st": [int(x) for x in json.loads(steps)]})
+            finally:
+                con.close()
 
     # the server loop's inactivity reset (10 s without a request) reads time.time(): give it the
     # virtual clock too, so that a descheduled worker process cannot change the ECU's behaviour
@@ -295,7 +328,10 @@ def run_scan(case: dict[str, Any]) -> dict[str, Any]:
     real_time = server_mod.time
     server_mod.time = lambda: asyncio.get_event_loop().time()  # type: ignore[assignment]
     try:
-        vloop.run(go(), horizon=3600.0 * 24 * 30)
+        if real_db:
+            asyncio.run(asyncio.wait_for(go(), 120))  # aiosqlite works through a thread: normal event loop
+        else:
+            vloop.run(go(), horizon=3600.0 * 24 * 30)
     except (TimeoutError, vloop.BlockedForever):
         out["end"] = "hang"
     except SystemExit as e:  # raised inside a task
@@ -316,7 +352,7 @@ def run_scan(case: dict[str, Any]) -> dict[str, Any]:
         "nrcs": sorted({r["nrc"] for r in srv.log if r["nrc"]}),
         "nother": srv.n_other,
         "result": [int(x) for x in scanner.result],
-        "rows": db.rows,
+        "rows": real_rows if real_db else db.rows,
         "end": out["end"],
         "exc": out["exc"],
         "case": {k: case[k] for k in case},
